@@ -175,7 +175,7 @@ def wigm_options(d):
         if d.p(70):
             o['arithmetic'] = 'guarded'
         if d.p(70):
-            o['precision'] = d.int(0, 20)
+            o['precision'] = d.int(0, 3) if d.p(30) else d.int(0, 20)     # few digits: tallies below the tolerance occur
             if d.p(70):
                 o['guard'] = d.int(0, 12)
     if d.p(25):
@@ -294,7 +294,8 @@ class Choices:
 
 SEPS = [' ', ' ', '\n', '\t', '  ', '\r\n', ' \n ', ' # note\n', ' /* c */ ', '\n/* a /* nested */ b */\n',
         ' #\n', ' /* 1 2 0 */ ', ' # "q" [x] (y) -1\n', ' /*x*/ ', '\n\n',
-        ' /* "q" */ ', ' /* say "hi there */ ', '\n/* "a */\n', ' # "unbalanced\n']
+        ' /* "q" */ ', ' /* say "hi there */ ', '\n/* "a */\n', ' # "unbalanced\n',
+        ' /* see #12 */ ', ' /* # */ ', '\n/* a #b /* #c */ d */\n']
 QSEPS = [' ', ' ', '\t', '\n', '  ', '\r\n']      # inside a quoted string only white space may vary
 
 
